@@ -4,9 +4,11 @@ import json, os
 
 VERIF = os.path.dirname(os.path.abspath(__file__))
 
-TRUSTED = ("Assumes the store contract S1-S14 of DESIGN.md section 4 (simpg stands in for PostgreSQL; no SQL of the repository runs). "
+TRUSTED = ("Assumes the store contract S1-S14 of DESIGN.md section 4: simpg stands in for PostgreSQL. In two runs out of three (real-SQL runs, DESIGN.md section 15) the write-path data methods of "
+           "internal/storage/ledger execute for real and the SQL text they build is interpreted by sqlmini over hand-declared tables (columns, defaults, primary keys and unique indexes copied from the migrations; "
+           "the triggers set_log_hash, effective volumes and updated_at re-implemented in Go); in the other runs those methods are served by the contract model. The read/resource queries never run. "
            "Real code: API router and handlers, system controller and state tracker, ledger controller stack, Numscript machine and interpreter, "
-           "storage/ledger/store.go transaction control over the sim database/sql driver. ")
+           "storage/ledger/store.go transaction control and (real-SQL runs) balances.go, volumes.go, transactions.go, moves.go, accounts.go, logs.go, schema.go over the sim database/sql driver. ")
 
 # property -> (technique, level text, level note, design ref, built?)
 SIM = "deterministic simulation with fault injection: "
@@ -14,6 +16,24 @@ CLAIMED = {
     "C01": (SIM + "seeded histories of every write kind (big amounts, self postings, reverts) with store faults and crashes; conservation and volumes-equal-fold-of-postings checked after every simulated commit",
             "Seeded exploration; after every commit and at the end, per ledger and asset total input equals total output and the volume rows equal an independent fold of the committed postings. Covers the Go side of the mechanism only (postings produced by every write path, Transaction.VolumeUpdates).",
             TRUSTED + "SCOPE LIMIT: the accumulation upsert and every read path (aggregated balances, PIT volumes) are SQL and are not executed.", "9/C01"),
+    "C03": (SIM + "seeded histories (transactions touching one account several times, source = destination, several transactions in one SQL transaction through atomic bulks, back-dated timestamps, reverts, 1-3 concurrent writers on shared accounts, store faults and crashes) with the real CommitTransaction / UpdateVolumes / InsertTransaction / InsertMoves of storage/ledger running over the SQL interpreter; commit-sequence invariant recomputing, per commit and in id order, the volumes right after each new transaction and after each half of each posting",
+            "Seeded exploration; at every simulated commit the stored post-commit volumes of each new transaction, and the post-commit volumes, order, dates and amounts of its moves, are compared with an independent forward fold from the committed volumes before the commit; stored values of older transactions must not change; the volumes and pre-commit volumes shown in the create answers are compared with the stored ones.",
+            TRUSTED + "SCOPE LIMIT: decided in the real-SQL runs only (the contract model keeps no moves); the accounts_volumes upsert is interpreted from its statement text, the expand/PIT read paths that show these values on list routes are SQL and do not run.", "15/C03"),
+    "C09": (SIM + "seeded schedules of 2-4 concurrent writers of every kind on a HASH_LOGS=SYNC ledger, with store faults, ambiguous commits and crashes; the real InsertLog (advisory lock gating, statement order, fields sent) runs over the SQL interpreter; invariant after every simulated commit: each committed log's hash is the chain hash over its predecessor in id order",
+            "Seeded exploration; the committed logs are re-chained after every commit: a log that chained from anything but the previous committed log (two writers reading the same predecessor) breaks the recomputation. Ledgers that do not hash must carry no hash.",
+            TRUSTED + "SCOPE LIMIT: the digest itself is computed by the repository's Go Log.ComputeHash inside the re-implemented trigger; that PostgreSQL's set_log_hash computes the same bytes is property C10 and is assumed (DESIGN.md 15 records a discrepancy found by reading: the trigger ignores schema_version). Decided here: the linearity of the chain under concurrency, i.e. the lock protocol of InsertLog.", "15/C09"),
+    "C14": (SIM + "seeded schedules of 2-4 clients creating transactions (postings, scripts, bulk elements, v1 and v2) that share a pool of three references on two ledgers of one bucket, with store faults and crashes; the real InsertTransaction (constraint-name mapping) runs over the SQL interpreter, whose transactions table carries the partial unique index of the migrations; invariant at every commit + answers oracle",
+            "Seeded exploration; at every commit no two transactions of a ledger share a non-empty reference; a fault-free request that reuses a reference committed before it was sent must be answered a reference conflict and leave nothing; a conflict is only answered when the same ledger holds the reference; the same reference succeeds once per ledger whatever other ledgers hold.",
+            TRUSTED + "SCOPE LIMIT: the unique index itself (that PostgreSQL enforces (ledger, reference) where reference <> '') is declared by hand from migrations 14/15, not executed; what is decided is everything around it: the statement InsertTransaction builds, the mapping of the constraint name to ErrTransactionReferenceConflict, the controller's rollback and the API answer, under concurrency.", "15/C14"),
+    "C16": (SIM + "seeded schedules of 2-4 concurrent writers on two ledgers of one bucket, on shared and on disjoint accounts, with writes that fail and roll back; the real InsertTransaction / InsertLog (which sequence, when it is drawn relative to the locks) run over the SQL interpreter with non-transactional sequences; invariant at every commit: ids added are above every id committed before on that ledger; final: a ledger's ids never exceed the id-drawing attempts made on it",
+            "Seeded exploration. KNOWN FINDINGS (known_findings.json): transaction ids do not follow commit order for concurrent writers sharing no volume row, and log ids do not on ledgers that do not hash synchronously; every other inversion, and any dependence of one ledger's ids on another's writes, is reported.",
+            TRUSTED + "SCOPE LIMIT: uniqueness is enforced by the declared primary keys (a duplicate shows as a refused write); sequence semantics (non-transactional, gaps on rollback) are the contract S12.", "15/C16"),
+    "C18": (SIM + "seeded histories with back-dated, equal and future-dated transactions, script-set account metadata, metadata-only accounts, deletes on unknown accounts and failing writes, 1-3 concurrent clients, store faults and crashes; the real UpsertAccounts (its raw CTE interpreted statement by statement), UpdateAccountsMetadata and DeleteAccountMetadata run over the SQL interpreter; final-state oracle derived from the committed logs only + invariants at every commit",
+            "Seeded exploration; an account row exists iff a committed log involves the account in a transaction or writes metadata on it; first usage equals the earliest of those events; insertion date never changes and first usage never moves later.",
+            TRUSTED + "SCOPE LIMIT: the account listing routes (SQL) do not run; the oracle reads the accounts table. KNOWN FINDING: a metadata write on an existing account never lowers first usage.", "15/C18"),
+    "C19": (SIM + "seeded histories on three ledgers sharing a bucket (one of them created mid-history) and one alone in another bucket, with the same account names, references, idempotency keys and transaction ids everywhere, 2-3 concurrent clients, store faults and crashes; every write statement's ledger predicate is interpreted over bucket-wide tables; invariant at every commit: every changed row belongs to the ledger the committing request addressed",
+            "Seeded exploration of the WRITE half of the statement: no write on one ledger changes a row of another; each ledger's journal and state stay explained by its own acknowledged writes (logs-match-ops, replay, conservation per ledger).",
+            TRUSTED + "SCOPE LIMIT: the read half of C19 (newScopedSelect and the alone-in-bucket shortcut, resource_*.go) is SQL read code and does not run; it is not decided.", "15/C19"),
     "C06": (SIM + "seeded schedules of 2-4 concurrent writers at store-call granularity + commit-sequence invariant on balances vs declared allowance",
             "Seeded exploration of interleavings (and store faults) of concurrent spenders through the real HTTP API; at every simulated commit the balance of each bounded source is compared with its allowance. Sampling, not proof.",
             TRUSTED + "The row locking itself (SELECT ... FOR UPDATE in balances.go) is part of the contract, not checked.", "9/C06"),
@@ -58,11 +78,14 @@ CLAIMED = {
 PENDING = {}
 
 NA_PG = "mechanism executes only inside PostgreSQL (SQL / PL/pgSQL / triggers / indexes); the sandbox has no PostgreSQL or other SQL engine, so no simulated run can execute it (DESIGN.md sections 1 and 9)"
+NA_READ = ("what the statement quantifies over is observed through the repository's read/resource SQL (dynamic filters, point-in-time and window aggregation over moves, metadata-history joins, cursors) or through per-feature triggers; "
+           "that SQL is outside the restricted write-path grammar the simulator interprets and there is no PostgreSQL or other SQL engine in the sandbox, so no simulated run can execute it (DESIGN.md sections 1, 9 and 15). "
+           "The write-side facts behind it (volume rows equal the fold of postings, current metadata equals the replay of the logs, hashes only when HASH_LOGS=SYNC) are checked under C01, C03, C08, C09")
 NA_PURE = "pure function of its input: no schedule, clock, fault, crash point or shared state for a simulator to act on (DESIGN.md section 9); a property-based/differential test would be the right tool, not this technique"
 
 NOT_APPLICABLE = {
-    "C02": NA_PG, "C03": NA_PG, "C04": NA_PG, "C05": NA_PG, "C09": NA_PG, "C10": NA_PG, "C14": NA_PG, "C16": NA_PG, "C17": NA_PG,
-    "C18": NA_PG, "C19": NA_PG, "C20": NA_PG, "C21": NA_PG, "C34": NA_PG, "C35": NA_PG,
+    "C02": NA_READ, "C04": NA_PG, "C05": NA_READ, "C10": NA_PG, "C17": NA_READ,
+    "C20": NA_READ, "C21": NA_READ, "C34": NA_PG, "C35": NA_READ,
     "C22": NA_PURE, "C23": NA_PURE, "C24": NA_PURE, "C26": NA_PURE, "C27": NA_PURE, "C28": NA_PURE, "C30": NA_PURE, "C36": NA_PURE, "C37": NA_PURE,
 }
 
